@@ -1,5 +1,291 @@
+/-
+  Model of Convert_xmi2midi_multi (src/cvt_xmi2mid.hpp, conversion type "no conversion"): AIL XMI file -> one single-track
+  Standard MIDI File image per sequence.  The source is the file followed by the 20 zero bytes parseXMI appends; every read
+  is bounded by the source (reads beyond it give zeros, seeks and skips are clamped), as in the repaired reader.
+-/
 import OpnVerif.Model.Seq
+
 namespace Opn.Xmi
 open Opn Opn.Seq
-def convert (_ : Bytes) : Option (List Bytes) := none
+
+/-- the source cursor -/
+structure Src where
+  bs : Bytes
+  pos : Nat
+  deriving Inhabited
+
+def Src.size (s : Src) : Nat := s.bs.length
+def Src.left (s : Src) : Nat := s.size - s.pos
+
+def read1 (s : Src) : Nat × Src := if s.pos < s.size then (s.bs.getD s.pos 0, { s with pos := s.pos + 1 }) else (0, s)
+def read2 (s : Src) : Nat × Src := let (a, s) := read1 s; let (b, s) := read1 s; (a + b * 256, s)
+def read4 (s : Src) : Nat × Src :=
+  let (b3, s) := read1 s; let (b2, s) := read1 s; let (b1, s) := read1 s; let (b0, s) := read1 s
+  (b0 + b1 * 256 + b2 * 65536 + b3 * 16777216, s)
+def read4le (s : Src) : Nat × Src :=
+  let (b3, s) := read1 s; let (b2, s) := read1 s; let (b1, s) := read1 s; let (b0, s) := read1 s
+  (b3 + b2 * 256 + b1 * 65536 + b0 * 16777216, s)
+/-- xmi2mid_copy: `len` bytes, zero-filled behind the end of the source -/
+def copy (s : Src) (len : Nat) : Bytes × Src :=
+  let have_ := if s.left < len then s.left else len
+  (((s.bs.drop s.pos).take have_) ++ List.replicate (len - have_) 0, { s with pos := s.pos + have_ })
+def seek (s : Src) (pos : Nat) : Src := { s with pos := if pos > s.size then s.size else pos }
+def skipFwd (s : Src) (len : Nat) : Src := { s with pos := s.pos + (if len < s.left then len else s.left) }
+def skipBack1 (s : Src) : Src := { s with pos := s.pos - 1 }
+
+/-- an event of the intermediate list -/
+structure XEv where
+  time : Int
+  status : Nat
+  d0 : Nat := 0
+  d1 : Nat := 0
+  buffer : Bytes := []
+  len : Nat := 0
+  deriving Repr, Inhabited
+
+/-- the event list with the converter's `current` pointer (an index) -/
+structure EL where
+  l : List XEv := []
+  cur : Nat := 0
+  deriving Inhabited
+
+/-- xmi2mid_CreateNewEvent, pointer for pointer: the scan for the insertion point starts at `current` (reset to the head only
+    when `current` is later than the new time) and looks at `current->next` only, so a new event is never put in front of the head -/
+def insertEv (el : EL) (e : XEv) : EL :=
+  match el.l with
+  | [] => { l := [{ e with time := if e.time < 0 then 0 else e.time }], cur := 0 }
+  | _ =>
+    if e.time < 0 then { l := { e with time := 0 } :: el.l, cur := 0 } else
+    let cur := if ((el.l[el.cur]?).map (·.time)).getD 0 > e.time then 0 else el.cur
+    let rec go (fuel : Nat) (c : Nat) : EL :=
+      match fuel with
+      | 0 => { l := el.l ++ [e], cur := el.l.length }
+      | f + 1 =>
+        match el.l[c + 1]? with
+        | none => { l := el.l ++ [e], cur := el.l.length }
+        | some nx => if nx.time > e.time then { l := el.l.take (c + 1) ++ [e] ++ el.l.drop (c + 1), cur := c + 1 } else go f (c + 1)
+    go (el.l.length + 1) cur
+
+def toI32 (n : Int) : Int := toSigned 32 (ofSigned 32 n)
+
+/-- xmi2mid_GetVLQ: at most four bytes, and never the last byte of the source -/
+def getVLQ (s : Src) : Nat × Nat × Src :=
+  let rec go (fuel : Nat) (i : Nat) (q : Nat) (s : Src) : Nat × Nat × Src :=
+    match fuel with
+    | 0 => (q, i, s)
+    | f + 1 =>
+      if s.pos + 1 ≥ s.size then (q, i, s) else
+      let (d, s) := read1 s
+      let q := (q * 128 % 4294967296) ||| (d % 128)
+      if d < 128 then (q, i + 1, s) else go f (i + 1) q s
+  go 4 0 0 s
+
+/-- xmi2mid_GetVLQ2: the XMI delta — bytes below 0x80 are summed -/
+def getVLQ2 (s : Src) : Nat × Src :=
+  let rec go (fuel : Nat) (q : Nat) (s : Src) : Nat × Src :=
+    match fuel with
+    | 0 => (q, s)
+    | f + 1 =>
+      if s.pos == s.size then (q, s) else
+      let (d, s') := read1 s
+      if d ≥ 128 then (q, skipBack1 s') else go f ((q + d) % 4294967296) s'
+  go (s.size + 1) 0 s
+
+/-- xmi2mid_ConvertEvent for conversion type 0; returns the list and the cursor -/
+def convertEvent (l : EL) (s : Src) (time : Int) (status : Nat) (size : Nat) : EL × Src :=
+  let (data, s) := read1 s
+  let data := if status / 16 == 0xB && status % 16 != 9 && data == 114 then 32 else data
+  if status / 16 == 0xB && data == 0 then
+    let (v, s) := read1 s
+    (insertEv l { time := time, status := status, d0 := 0, d1 := if v == 127 then 0 else v }, s)
+  else
+    if size == 1 then (insertEv l { time := time, status := status, d0 := data }, s) else
+    let (d1, s) := read1 s
+    let l := insertEv l { time := time, status := status, d0 := data, d1 := d1 }
+    if size == 2 then (l, s) else
+    let prev := l.cur
+    let (delta, _, s) := getVLQ s
+    let l := insertEv l { time := toI32 (time + (delta * 3 % 4294967296 : Nat)), status := status, d0 := data, d1 := 0 }
+    ({ l with cur := prev }, s)
+
+/-- xmi2mid_ConvertSystemMessage -/
+def convertSystemMessage (l : EL) (s : Src) (time : Int) (status : Nat) : EL × Src :=
+  let (d0, s) := if status == 0xFF then read1 s else (0, s)
+  let (len, _, s) := getVLQ s
+  let len := if len > s.left then s.left else len
+  if len == 0 then (insertEv l { time := time, status := status, d0 := d0 }, s) else
+  let (buf, s) := copy s len
+  (insertEv l { time := time, status := status, d0 := d0, buffer := buf, len := len }, s)
+
+def hexDigit (n : Nat) : Nat := if n < 10 then 48 + n else 55 + n
+
+/-- xmi2mid_ConvertFiletoList: (event list, PPQN as `signed short`, cursor) -/
+def convertFileToList (s0 : Src) (branches : List (Nat × Nat)) : List XEv × Int × Src :=
+  let begin := s0.pos
+  let rec go (fuel : Nat) (l : EL) (s : Src) (time : Int) (tempo : Nat) (tempoSet : Bool) : EL × Nat × Src :=
+    match fuel with
+    | 0 => (l, tempo, s)
+    | f + 1 =>
+      if s.pos ≥ s.size then (l, tempo, s) else
+      let offset := s.pos - begin
+      -- branch markers that point at this offset
+      let l := branches.foldl (fun l (p : Nat × Nat) =>
+        if p.2 == offset then
+          insertEv l { time := time, status := 0xFF, d0 := 0x06, len := 8,
+                       buffer := [58, 88, 66, 82, 78, 58, hexDigit (p.1 / 16), hexDigit (p.1 % 16)] }
+        else l) l
+      let (d, s) := getVLQ2 s
+      let time := toI32 (time + (d * 3 % 4294967296 : Nat))
+      let (status, s) := read1 s
+      let k := status / 16
+      if k == 9 then let (l, s) := convertEvent l s time status 3; go f l s time tempo tempoSet
+      else if k == 8 || k == 0xA || k == 0xB || k == 0xE then let (l, s) := convertEvent l s time status 2; go f l s time tempo tempoSet
+      else if k == 0xC || k == 0xD then let (l, s) := convertEvent l s time status 1; go f l s time tempo tempoSet
+      else if k == 0xF then
+        if status == 0xFF then
+          let pos := s.pos
+          let (dat, s1) := read1 s
+          if dat == 0x2F then
+            let (l, s) := convertSystemMessage l (seek s1 pos) time status
+            (l, tempo, s)
+          else if dat == 0x51 && !tempoSet then
+            let s2 := skipFwd s1 1
+            let (a, s2) := read1 s2; let (b, s2) := read1 s2; let (c, _) := read1 s2
+            let tempo := (a * 65536 + b * 256 + c) * 3
+            let (l, s) := convertSystemMessage l (seek s1 pos) time status
+            go f l s time tempo true
+          else if dat == 0x51 && tempoSet then
+            let (n, _, s2) := getVLQ s1
+            go f l (skipFwd s2 n) time tempo tempoSet
+          else
+            let (l, s) := convertSystemMessage l (seek s1 pos) time status
+            go f l s time tempo tempoSet
+        else
+          let (l, s) := convertSystemMessage l s time status
+          go f l s time tempo tempoSet
+      else go f l s time tempo tempoSet
+  let (l, tempo, s) := go (s0.size + 2) {} s0 0 500000 false
+  (l.l, toSigned 16 ((tempo * 3 / 25000) % 65536), s)
+
+/-- xmi2mid_PutVLQ with its 32-bit accumulator -/
+def putVLQ (value : Nat) : Bytes :=
+  let rec build (fuel : Nat) (v : Nat) (buffer : Nat) (i : Nat) : Nat × Nat :=
+    match fuel with
+    | 0 => (buffer, i)
+    | f + 1 =>
+      let v := v / 128
+      if v == 0 then (buffer, i) else build f v ((buffer * 256 % 4294967296) ||| ((v % 128) ||| 0x80)) (i + 1)
+  let (buffer, i) := build 6 (value % 4294967296) (value % 128) 1
+  (List.range i).map fun j => buffer / 256 ^ j % 256
+
+/-- xmi2mid_ConvertListToMTrk: the track chunk -/
+def listToMTrk (l : List XEv) : Bytes :=
+  let rec go : List XEv → Int → Nat → Bytes → Bytes
+    | [], _, _, acc => acc
+    | e :: es, time, last, acc =>
+      let delta := ofSigned 32 (e.time - time)
+      let acc := acc ++ putVLQ delta
+      let acc := if e.status != last || e.status ≥ 0xF0 then acc ++ [e.status % 256] else acc
+      let k := e.status / 16
+      if k == 8 || k == 9 || k == 0xA || k == 0xB || k == 0xE then go es e.time e.status (acc ++ [e.d0 % 256, e.d1 % 256])
+      else if k == 0xC || k == 0xD then go es e.time e.status (acc ++ [e.d0 % 256])
+      else if k == 0xF then
+        let acc := if e.status == 0xFF then acc ++ [e.d0 % 256] else acc
+        let acc := acc ++ putVLQ e.len ++ e.buffer.take e.len
+        if e.status == 0xFF && e.d0 == 0x2F then acc else go es e.time e.status acc
+      else go es e.time e.status acc
+  let body := go l 0 0 []
+  let n := body.length
+  [77, 84, 114, 107, n / 16777216 % 256, n / 65536 % 256, n / 256 % 256, n % 256] ++ body
+
+def tag (s : String) : Bytes := s.toList.map (·.toNat)
+
+/-- xmi2mid_ParseXMI: number of sequences and the position behind "CAT <len> XMID", or `none` -/
+def parseXMI (s : Src) : Option (Nat × Src) :=
+  if s.pos + 8 > s.size then none else
+  let (buf, s) := copy s 4
+  if buf != tag "FORM" then none else
+  let (len, s) := read4 s
+  let start := s.pos
+  if start + 4 > s.size then none else
+  let (ty, s) := copy s 4
+  if ty == tag "XMID" then none                      -- XDIR-less files fall out of the function with -1
+  else if ty != tag "XDIR" then none
+  else
+    -- walk the chunks of the XDIR form looking for INFO
+    let rec walk (fuel : Nat) (i : Nat) (s : Src) : Nat × Src :=
+      match fuel with
+      | 0 => (0, s)
+      | f + 1 =>
+        if i ≥ len then (0, s) else
+        if s.pos + 10 > s.size then (0, s) else
+        let (name, s) := copy s 4
+        let (clen, s) := read4 s
+        let i := i + 8
+        if name != tag "INFO" then
+          let adv := (clen + 1) / 2 * 2 % 4294967296
+          walk f (i + adv + 1) (skipFwd s adv)
+        else if clen < 2 then (0, s)
+        else let (t, s) := read2 s; (t, s)
+    let (tracks, s) := walk (s.size + 2) 4 s
+    if tracks == 0 then none else
+    let s := seek s ((start + (len + 1) / 2 * 2) % 4294967296)
+    if s.pos + 12 > s.size then none else
+    let (cat, s) := copy s 4
+    if cat != tag "CAT " then none else
+    let (_, s) := read4 s
+    let (x, s) := copy s 4
+    if x != tag "XMID" then none else some (tracks, s)
+
+/-- xmi2mid_ExtractTracksFromXmi: the converted sequences (event list, PPQN) -/
+def extractTracks (tracks : Nat) (s : Src) : List (List XEv × Int) :=
+  let rec go (fuel : Nat) (s : Src) (branch : List (Nat × Nat)) (acc : List (List XEv × Int)) : List (List XEv × Int) :=
+    match fuel with
+    | 0 => acc
+    | f + 1 =>
+      if s.pos ≥ s.size || acc.length == tracks then acc else
+      let (name, s) := copy s 4
+      let (len, s) := read4 s
+      let (name, len, s) :=
+        if name == tag "FORM" then
+          let s := skipFwd s 4
+          let (name, s) := copy s 4
+          let (len, s) := read4 s
+          (name, len, s)
+        else (name, len, s)
+      let aligned := (len + 1) / 2 * 2 % 4294967296
+      if name == tag "RBRN" then
+        let begin := s.pos
+        let (branch, _) :=
+          if len < 2 then (branch, s) else
+          let (count, s1) := read2 s
+          if len - 2 < 6 * count then (branch, s1) else
+          (List.range count).foldl (fun (acc : List (Nat × Nat) × Src) _ =>
+            let (ctl, s2) := read2 acc.2
+            let (off, s2) := read4le s2
+            (if ctl < 128 then (acc.1.filter (·.1 != ctl)) ++ [(ctl, off)] else acc.1, s2)) (branch, s1)
+        go f (seek s ((begin + aligned) % 4294967296)) branch acc
+      else if name != tag "EVNT" then go f (skipFwd s aligned) branch acc
+      else
+        let begin := s.pos
+        -- branches in order of their controller value
+        let sorted := (List.range 128).filterMap fun i => (branch.find? (·.1 == i))
+        let (l, ppqn, _) := convertFileToList s sorted
+        if ppqn == 0 then acc else
+        go f (seek s ((begin + aligned) % 4294967296)) [] (acc ++ [(l, ppqn)])
+  go (s.size + 2) s [] []
+
+/-- Convert_xmi2midi_multi on the file image (the caller appends 20 zero bytes): one SMF image per sequence, or `none` -/
+def convert (file : Bytes) : Option (List Bytes) :=
+  let src : Src := { bs := file ++ List.replicate 20 0, pos := 0 }
+  match parseXMI src with
+  | none => none
+  | some (tracks, s) =>
+    let seqs := extractTracks tracks s
+    if seqs.length != tracks then none else
+    let ty := if tracks > 1 then 2 else 0
+    some (seqs.map fun (l, ppqn) =>
+      let q := ofSigned 16 ppqn
+      [77, 84, 104, 100, 0, 0, 0, 6, 0, ty, 0, 1, q / 256 % 256, q % 256] ++ listToMTrk l)
+
 end Opn.Xmi
